@@ -25,7 +25,7 @@ CHECKS = [
     ("html/consts.go", ["C05", "C03"]),
     ("html/tag_attr.go", ["C02", "C06", "C12", "C16", "C14"]),
     ("html/template.go", ["C03", "C04", "C05", "C07", "C02", "C06", "C12", "C16", "C01", "C08"]),
-    ("html/manager.go", ["C07", "C19", "C15"]),
+    ("html/manager.go", ["C07", "C19", "C01", "C05", "C15"]),
     ("exp/", ["C09", "C11", "C13", "C12", "C14", "C10", "C06"]),
     ("render.go", ["C18"]),
     ("cmd/xtpl/", ["C20"]),
